@@ -62,6 +62,7 @@ def run(chk, repo, tier):
     C18b.run_g15(chk, G15, repo)
     C18b.run_g16_g18(chk, repo)
     C18b.run_g19_g20(chk, repo)
+    C18b.run_g22(chk, repo)
     G8 = chk.rule('G8', 'children[k] is not read unconditionally when the interpreter itself asserts that fewer '
                         'children are possible', floor=3)
 
